@@ -10,11 +10,12 @@ ThreadPoolExecutor and inspects threading.enumerate().  Theorems: lean/MlModel/P
 import copy
 
 from harness import lib_piter as lp
+from harness import lib_piter2 as lp2
 from harness import lib_piter_real as lr
 
 PID = 'C13'
 TITLE = 'Parallel iteration yields the sequential multiset and releases its threads'
-LEAN_MODULES = ['MlModel.Properties.C13']
+LEAN_MODULES = ['MlModel.Properties.C13', 'MlModel.Properties.C13Two', 'MlModel.Witness.C13']
 TRUSTED = [
     'scheduler shim (harness/sched/shim.py): CPython Lock/RLock/Condition/queue semantics and a thread pool that starts a '
     'submitted task when fewer than max_workers tasks run and whose shutdown() joins; one atomic step = one synchronisation '
@@ -22,8 +23,9 @@ TRUSTED = [
     'iter_fn is modelled as a row-wise function Nat -> Option (List Nat) applied to each pulled element (map / filter / '
     'flat-map, may raise) plus a generator return value; the real ThreadPoolExecutor worker life-cycle is observed '
     '(stage 2), not modelled',
-    'the two-level composition piter(iterator_fn, several input_iterators) (a multiplex queue feeding a shared-input queue) '
-    'is checked by the oracle under the scheduler and on real threads, but has no LTS of its own: the model covers one queue level',
+    'the two-level composition piter(iterator_fn, several input_iterators) has its own LTS (Model/Piter2.lean: two Queue LTS '
+    'instances in one pool, every thread stepped by Queue.stepThread on the queue it is operating on); the scheduler shim lets '
+    'a pool start its submitted tasks in ANY order (a superset of CPython\'s FIFO work queue; the LTS has both gates)',
 ]
 ASSUMPTIONS = ['ignore_error and timeout are not set (piter_multiplex never sets them)',
                'deadlock freedom of the one-queue LTS is a THEOREM (C13_no_deadlock / C13_threads_end: a reachable configuration '
@@ -34,12 +36,18 @@ ASSUMPTIONS = ['ignore_error and timeout are not set (piter_multiplex never sets
                'termination of the one-queue LTS is a THEOREM too (C13_variant: an explicit measure strictly decreases on every step; '
                'C13_bounded_executions, C13_terminates: every execution is finite and ends with all helper threads finished and '
                'the pool shut down), for positive batch sizes',
-               'NOT proved: the two-level composition, where a pool smaller than the number of tasks does deadlock '
-               '(F-C13-pool-small: needs two queues in one pool, outside the LTS)']
+               'two-level composition: proved for every schedule — each queue\'s shared state changes only by Queue.stepThread steps '
+               '(C13_two_shared_steps), failures / stop requests / exhaustion of either queue are sticky (C13_two_sticky), one pool gate '
+               'for both levels (C13_two_pool_gate), with a worker per task (piter\'s own pool, fix b40a851) no submitted task ever waits '
+               '(C13_two_no_task_waits / C13_two_own_pool_never_waits); Lean WITNESSES of F-C13-pool-small (Witness/C13.lean)',
+               'NOT proved for the two-queue LTS: deadlock-freedom under the pool side condition and conservation across both levels — '
+               'checked by the oracle on every run, by step-by-step replay (enabled sets included) and by EXHAUSTIVE exploration of all '
+               'schedules of small two-level configurations (stuck configurations exactly where max_workers <= #inputs, or for '
+               'any-order pools <= #iterator_fn tasks)']
 RULE = ('entry points pmap / piter_fn / piter / piter_multiplex / MultiplexIterator x 1-3 inputs of 0-3 (quick) / 0-4 (thorough) '
         'elements x parallelism 1-3 x buffer sizes {0,1,2,3} (3*P for MultiplexIterator) x pool max_workers {default,1,2,3} x '
         'row function in {ident, inc, keep_even, dup, dup_odd} x failure of the input or of the function at any position x '
-        'early stop after 0-4 elements; input iterators ending with StopIteration(a) or StopIteration(a, b) (forwarded by map / bare inputs: every value must be kept); two-level piter with a generator iterator_fn or a pass-through map (which forwards the input queue\'s StopIteration(*returned)), chained queues q2.enqueue_from_iterator(q1) (oracle only); 10% directed '
+        'early stop after 0-4 elements; input iterators ending with StopIteration(a) or StopIteration(a, b) (forwarded by map / bare inputs: every value must be kept); two-level piter with a generator iterator_fn or a pass-through map (which forwards the input queue\'s StopIteration(*returned)): replayed step by step against the TWO-queue LTS Model/Piter2.lean (labels of both queues, lock1, pool gate, enabled sets, blocked sets at a deadlock, both returned lists), plus 1/12 directed two-level cases (pools of size 1, 2, #inputs, #inputs+1, #tasks, own; early stop / failure at either level), every promised program point of the LTS has to be exercised (exit 2 otherwise); chained queues q2.enqueue_from_iterator(q1) (oracle only); 10% directed '
         'cases with 3-4 producers parked on a full buffer of 1-2 when an input / the function fails or the consumer stops; schedules: seeded uniform-random and PCT priority schedules chosen on the REAL code, '
         'replayed choice by choice on the Lean LTS (labels, enabled sets, per-thread pulled/received/outcome, queue.returned); '
         'non-trivial = at least 2 threads took turns at least 10 times; stage 2: the same case shapes on the real '
@@ -56,6 +64,9 @@ def gen_cases(ctx):
     if i % 10 == 6:
       case = lp.blocked_case(rng, quick=ctx.quick)
       ctx.count('directed', 'blocked-producers')
+    if i % 12 == 2 and i % 10 != 6:
+      case = lp2.directed_case(rng, quick=ctx.quick)
+      ctx.count('directed', 'two-level')
     if i % 10 == 3:
       # directed at the hazards: more tasks than workers, full queue (more outputs than the buffer), then an
       # early stop or a late failure -- tasks that start late, producers parked in put during maybe_stop/shutdown
@@ -92,6 +103,8 @@ def run_impl(case):
 def model_requests_obs(case, obs):
   if case.get('stage') == 'real_threads':
     return []
+  if case['api'] == 'piter2':
+    return [lp2.model_request(case, obs['choices'])]
   return lp.model_requests_obs(case, obs)
 
 
@@ -108,8 +121,29 @@ def shrink(case, fails):
 
 
 model_requests = None
-model_obs = lp.model_obs
-compare = lp.compare
+POINTS2 = {}          # program points of the two-queue LTS exercised by the replayed schedules (main process)
+STATS2 = dict(replayed=0, deadlock=0, done=0, disagree=0)
+
+
+def model_obs(case, resps):
+  if resps and case.get('api') == 'piter2':
+    m = lp2.model_obs(case, resps)
+    for p in m['points']:
+      POINTS2[p] = POINTS2.get(p, 0) + 1
+    STATS2['replayed'] += 1
+    if m['outcome'] in STATS2:
+      STATS2[m['outcome']] += 1
+    return m
+  return lp.model_obs(case, resps)
+
+
+def compare(obs, m):
+  if m is not None and m.get('two_level'):
+    w = lp2.compare(obs, m)
+    if w is not None:
+      STATS2['disagree'] += 1
+    return w
+  return lp.compare(obs, m)
 
 
 def nontrivial(case, obs):
@@ -118,9 +152,12 @@ def nontrivial(case, obs):
 
 
 def pool_too_small(case):
-  """two-level piter on a pool given by the caller with fewer workers than tasks (inputs + parallelism)"""
+  """two-level piter on a pool given by the caller in which the tasks of one level can occupy every worker:
+  max_workers <= #inputs (the enqueuers block on the full input queue, no iterator_fn task runs), or — pools that may start
+  tasks in any order, as the scheduler shim does — max_workers <= parallelism (the iterator_fn tasks wait for enqueuers
+  that cannot start).  Exhaustive exploration of the two-queue LTS finds stuck configurations exactly in this class."""
   return bool(case.get('api') == 'piter2' and case.get('workers') and
-              case['workers'] < len(case['inputs']) + case['par'])
+              case['workers'] <= max(len(case['inputs']), case['par']))
 
 
 def finding(case, what):
@@ -144,8 +181,62 @@ def neighbours(case, rng):
     yield c
 
 
+EXPLORE_QUICK = [
+    # (inputs, P, buffer_size, workers, fifo, expect_stuck)   small enough for the quick tier (<= 5 s each)
+    ([[1, 2], []], 1, 1, 1, True, True),        # F-C13-pool-small (Witness/C13.lean): FIFO pool, the enqueuer blocks on the full input queue
+    ([[1, 2], []], 1, 1, 1, False, True),       # any-order pool: additionally the iterator_fn task first, no enqueuer ever starts
+    ([[1], []], 1, 1, None, False, False),      # piter's own pool (fix b40a851): every schedule ends
+]
+EXPLORE_THOROUGH = EXPLORE_QUICK + [
+    ([[1, 2], []], 1, 1, 2, False, False),      # one more worker: every schedule ends
+    ([[1], [2]], 1, 1, None, False, False),
+    ([[1, 2], [3]], 1, 1, 2, False, True),      # workers = #inputs
+    ([[1, 2], [3]], 1, 1, 2, True, True),
+    ([[1, 2], [3]], 1, 1, 3, False, False),     # caller's pool with #inputs + 1 workers
+    ([[1, 2], [3]], 2, 1, 2, False, True),      # any-order pool: both iterator_fn tasks first
+    ([[1, 2], [3]], 2, 1, 2, True, True),
+]
+
+
+def lts2_stage(ctx):
+  """two-queue LTS: (1) the replayed schedules have to exercise every promised program point; (2) exhaustive
+  exploration of ALL schedules of small configurations: a quiescent non-final configuration exists exactly where the
+  pool-size side condition of C13_two_* fails."""
+  from harness.core import InfraError
+  ctx.hist['lts2_points'] = dict(sorted(POINTS2.items()))
+  ctx.hist['lts2_replays'] = dict(STATS2)
+  missing = [p for p in lp2.PROMISED if p not in POINTS2]
+  ctx.notes.append(f'two-queue LTS: {STATS2["replayed"]} real two-level runs replayed step by step, '
+                   f'{len(POINTS2)} program points exercised ({len(lp2.PROMISED)} promised, missing {missing})')
+  # a disagreeing replay is reported by the runner (VIOLATION); coverage is only promised for the agreeing tree
+  if missing and not STATS2['disagree']:
+    raise InfraError(f'two-level replays missed promised program points of Model/Piter2.lean: {missing}')
+  confs = EXPLORE_QUICK if ctx.quick else EXPLORE_THOROUGH
+  reqs = []
+  for inputs, P, cap, workers, fifo, _ in confs:
+    case = dict(par=P, cap=cap, workers=workers or 0, inputs=inputs, fn='ident', fail_on=None, num_steps=None)
+    r = lp2.explore_request(case, 3000000)
+    r['workers'] = workers
+    r['fifo'] = fifo
+    reqs.append(r)
+  resps = ctx.lean.ask_many(reqs)
+  for (inputs, P, cap, workers, fifo, expect), r in zip(confs, resps):
+    ctx.extra_evals += 1
+    desc = dict(inputs=inputs, par=P, buffer_size=cap, workers=workers, fifo=fifo, states=r['states'],
+                transitions=r['transitions'], complete=r['complete'], stuck=r['n_stuck'], final=r['n_final'])
+    ctx.hist.setdefault('lts2_explore', {})[str((inputs, P, cap, workers, fifo))] = desc
+    if not r['complete']:
+      ctx.notes.append(f'exploration incomplete: {desc}')
+      continue
+    if bool(r['n_stuck']) != expect:
+      ctx.extra_disagreements.append(('lts2_explore', dict(api='piter2', explore=desc),
+                                      f'exhaustive exploration of the two-queue LTS: stuck configurations {r["n_stuck"]} '
+                                      f'(expected {"some" if expect else "none"}): {r["stuck"][:1]}'))
+
+
 def extra(ctx):
   """Stage 2: real ThreadPoolExecutor, no shim (in a child process with a deadline)."""
+  lts2_stage(ctx)
   n = 500 if ctx.quick else 4000
   cases = []
   for i in range(n):
